@@ -14,9 +14,7 @@
   shares whose groups have member thresholds > 1 (two-level SLIP39 vectors); that path is modelled too.
   Observation O15a: for `k = 1`, `split_secret` returns the single share `(0, secret)` whatever `n` is.
 -/
-import Buidl.Model.Mnemonic
-import Buidl.Gen.Shamir
-import Buidl.Gen.Slip39Words
+import Buidl.Model.Slip39Table
 namespace Buidl.Shamir
 open Buidl Buidl.Mnemonic
 
@@ -50,9 +48,6 @@ def rs1024Create (cs : Bytes) (data : List Nat) : List Nat :=
   [(polymod >>> 20) &&& 1023, (polymod >>> 10) &&& 1023, polymod &&& 1023]
 
 /-! ## Share -/
-
-/-- `SLIP39 = WordList("slip39_words.txt", 1024)` -/
-def SLIP39? : Option WordList := WordList.load Gen.slip39WordNats Gen.slip39Count
 
 structure Share where
   shareBitLength : Nat
@@ -142,14 +137,16 @@ structure Tables where
   exp : List Nat
   log : List Nat
 
+/-- `cur = (cur << 1) ^ cur; if cur > 255: cur ^= 0x11B`: multiplication by the generator `x + 1` -/
+def gfNext (cur : Nat) : Nat :=
+  let cur := (cur <<< Gen.gfShift) ^^^ cur
+  if cur > Gen.gfLimit then cur ^^^ Gen.gfReduce else cur
+
 /-- one iteration of the loop of `_load`; `List.set` outside the list is Python's IndexError, which cannot
     occur (`i < 255`, `cur ≤ 255`) -/
 def loadStep (st : Tables × Nat) (i : Nat) : Tables × Nat :=
   let (t, cur) := st
-  let t := { exp := t.exp.set i cur, log := t.log.set cur i }
-  let cur := (cur <<< Gen.gfShift) ^^^ cur
-  let cur := if cur > Gen.gfLimit then cur ^^^ Gen.gfReduce else cur
-  (t, cur)
+  ({ exp := t.exp.set i cur, log := t.log.set cur i }, gfNext cur)
 
 /-- ShareSet._load -/
 def load : Tables :=
